@@ -162,7 +162,9 @@ class RtdScaling(object):
 
     @staticmethod
     def _get_negative_real_root(roots):
-        filtered = [r for r in roots if not np.iscomplex(r) and r.real < 0.0]
+        # A resistance only just below R0 due to rounding has its root at zero,
+        # which may be computed as zero or slightly positive.
+        filtered = [r for r in roots if not np.iscomplex(r) and r.real < 1.0e-6]
         if len(filtered) != 1:
             raise ValueError("Expected single real valued negative root for RTD equation")
         return filtered[0].real
